@@ -136,10 +136,14 @@ pub struct StepCtx<'a> {
     pub intent: &'a Intent,
     pub kind: Option<usize>,
     pub index: usize,
+    /// spare choices of this operation's tape chunk, for oracles that generate their own probes
+    pub extra: &'a [u64],
 }
 
 /// The per-step oracle of a property: returns classes to count, or a non-pass verdict.
 pub trait StepOracle {
+    /// called right before a step is executed (quotes in the pre-state)
+    fn pre_step(&mut self, _w: &mut World, _step: &Step, _intent: &Intent, _gs: &GenState) {}
     fn on_step(&mut self, cx: &mut StepCtx, classes: &mut Vec<&'static str>) -> Verdict;
     /// called once after the last step
     fn finish(&mut self, _w: &mut World, _classes: &mut Vec<&'static str>) -> Verdict {
@@ -182,12 +186,15 @@ pub fn run_history(t: &Tape, prof: &Profile, seed_liquidity_16: u64, oracle: &mu
     }
     let mut op_iter = t.ops.iter();
     let mut idx = 0usize;
+    let mut gs = GenState::default();
     loop {
+        let mut extra: &[u64] = &[];
         let (step, kind) = if !planned.is_empty() {
             planned.remove(0)
         } else if let Some(chunk) = op_iter.next() {
             let mut os = Src::new(chunk);
-            let (st, k) = gen_step(&world, &mut os, prof);
+            let (st, k) = gen_step(&world, &mut os, prof, &mut gs);
+            extra = &chunk[chunk.len().saturating_sub(EXTRA_LEN)..];
             (st, Some(k))
         } else {
             break;
@@ -196,6 +203,7 @@ pub fn run_history(t: &Tape, prof: &Profile, seed_liquidity_16: u64, oracle: &mu
         if want_desc {
             concrete.push(step.clone());
         }
+        oracle.pre_step(&mut world, &step, &intent, &gs);
         let rec = world.exec(step);
         steps_run += 1;
         if let Some(k) = kind {
@@ -211,7 +219,7 @@ pub fn run_history(t: &Tape, prof: &Profile, seed_liquidity_16: u64, oracle: &mu
         }
         // harness invariant: a failed transaction leaves the chain byte-identical (atomicity of the
         // chain model).  The properties that state it judge it themselves; here it guards the harness.
-        let mut cx = StepCtx { world: &mut world, rec: &rec, intent: &intent, kind, index: idx };
+        let mut cx = StepCtx { world: &mut world, rec: &rec, intent: &intent, kind, index: idx, extra };
         let v = oracle.on_step(&mut cx, &mut classes);
         idx += 1;
         if !matches!(v, Verdict::Pass) {
@@ -257,9 +265,10 @@ pub fn run_concrete(v: &Value, oracle: &mut dyn StepOracle) -> Result<CaseResult
     let mut verdict = Verdict::Pass;
     for (idx, step) in steps.into_iter().enumerate() {
         let intent = classify(&world, &step);
+        oracle.pre_step(&mut world, &step, &intent, &GenState::default());
         let rec = world.exec(step);
         log.push(step_summary(&world, &rec.step, &rec.outcome));
-        let mut cx = StepCtx { world: &mut world, rec: &rec, intent: &intent, kind: None, index: idx };
+        let mut cx = StepCtx { world: &mut world, rec: &rec, intent: &intent, kind: None, index: idx, extra: &[] };
         let r = oracle.on_step(&mut cx, &mut classes);
         if !matches!(r, Verdict::Pass) {
             let stop = matches!(r, Verdict::Fail(_));
@@ -287,4 +296,64 @@ pub fn direct_with<O: StepOracle + Default>(v: &Value) -> Result<CaseResult, Str
 
 pub fn hist_case(t: &Tape, h: HistOutcome) -> CaseResult {
     CaseResult { verdict: h.verdict, nontrivial: h.nontrivial, key: fnv64(&t.to_bytes()), classes: h.classes, desc: h.desc }
+}
+
+// ------------------------------------------------------------------------------------------------
+// ledger-delta helpers shared by the settlement properties
+
+pub type DeltaMap = std::collections::BTreeMap<(String, String), i128>; // (account, asset key) -> delta
+
+pub fn asset_key(a: &AssetInfo) -> String {
+    match a {
+        AssetInfo::NativeToken { denom } => format!("native:{}", denom),
+        AssetInfo::Token { contract_addr } => format!("cw20:{}", contract_addr),
+    }
+}
+
+/// every balance change of the step, for every account in chain storage
+pub fn actual_deltas(rec: &StepRecord) -> DeltaMap {
+    let mut m = DeltaMap::new();
+    for c in &rec.changes {
+        match c {
+            Change::Bank { account, denom, before, after } => {
+                *m.entry((account.clone(), format!("native:{}", denom))).or_default() += *after as i128 - *before as i128;
+            }
+            Change::Cw20Balance { token, account, before, after } => {
+                *m.entry((account.clone(), format!("cw20:{}", token))).or_default() += *after as i128 - *before as i128;
+            }
+            _ => {}
+        }
+    }
+    m.retain(|_, v| *v != 0);
+    m
+}
+
+pub fn add_delta(m: &mut DeltaMap, account: &str, asset: &AssetInfo, d: i128) {
+    let e = m.entry((account.to_string(), asset_key(asset))).or_default();
+    *e += d;
+}
+
+pub fn supply_changes(rec: &StepRecord) -> Vec<(String, i128)> {
+    rec.changes
+        .iter()
+        .filter_map(|c| if let Change::Cw20Supply { token, before, after } = c { Some((token.clone(), *after as i128 - *before as i128)) } else { None })
+        .collect()
+}
+
+/// first difference between two delta maps, as text
+pub fn diff_deltas(expected: &DeltaMap, actual: &DeltaMap) -> Option<String> {
+    let mut e = expected.clone();
+    e.retain(|_, v| *v != 0);
+    for (k, v) in &e {
+        let a = actual.get(k).copied().unwrap_or(0);
+        if a != *v {
+            return Some(format!("balance of {} in {} changed by {} but the settlement requires {}", k.0, k.1, a, v));
+        }
+    }
+    for (k, a) in actual {
+        if !e.contains_key(k) {
+            return Some(format!("balance of {} in {} changed by {} although the settlement does not involve it", k.0, k.1, a));
+        }
+    }
+    None
 }
